@@ -7,7 +7,9 @@ RULE = ("random histories (tables, rows, streams, summary values) for all three 
         "code page, table and column inspection, select of every table, inner and left joins incl. one with an unknown "
         "column, stream listing and reading, has_stream/read_stream of a missing stream, signature test, all summary getters) "
         "and the session is closed by flush / into_inner / drop in turn; the medium must have received 0 write calls and its "
-        "bytes must be identical.  Also sessions on packages that were just created, and on packages reopened twice.  "
+        "bytes must be identical.  Also sessions on packages that were just created, on packages reopened twice, and on files "
+        "written by an independent encoder (unused pool entries that still hold text, duplicates, over-counts, three-byte "
+        "references, no _Validation, other property-set layouts).  "
         "non-trivial = the package holds at least one user table; distinct = distinct command lists")
 ASSUMPTIONS = ["sector-level behaviour of cfb on open is below the container model; it is observed on the real medium (write-call "
                "counter + byte comparison), not proved"]
@@ -41,12 +43,27 @@ def gen_cases(rng, tier, info):
             sessions += 1
         h.cmds.append("(snapshot)")
         cases.append(Case("ro-%d" % j, h.cmds))
+    # files written by another encoder (unused pool entries incl. ones still holding text, duplicates, three-byte refs ...)
+    import msienc
+    from pkgspec import mk
+    import exprgen as X
+    for j in range(12 if tier == "quick" else 200):
+        tables = {"T": ([mk("K", "i16", pk=True), mk("V", ("str", 8), null=True)], [[1, "a"], [2, "shared"], [5, None]]),
+                  "U": ([mk("A", ("str", 4), pk=True)], [["x"], ["shared"]])}
+        clsid, entries, _ = msienc.encode_db(rng, j % 3, 65001, tables, [(2, 30, "T"), (4, 30, "Ann")], {"Bin": [1, 2, 3]},
+                                             long_refs=(j % 2 == 1), holes=0.3, dups=0.3, overcount=0.3, stale=0.5,
+                                             validation=(j % 4 != 3), layout=["plain", "shuffled", "gaps"][j % 3])
+        cmds = [msienc.enc_open_raw(clsid, entries)]
+        for m in MODES + MODES:
+            cmds.append("(readonly_session %s)" % m)
+            sessions += 1
+        cases.append(Case("foreign-%d" % j, cmds, ("foreign",)))
     info.update({"histories": n, "read_only_sessions": sessions})
     return cases
 
 
 def nontrivial(case):
-    return any(c.startswith("(create_table") for c in case.cmds)
+    return any(c.startswith("(create_table") or c.startswith("(open_raw") for c in case.cmds)
 
 
 def oracle(ctx):
